@@ -732,9 +732,9 @@ theorem exactRatio_one {x : Int} (h : fitsI32 x = true) : Num.exactRatio x 1 = .
 theorem applyPure_numEq (τ : Store) (a b : Int) :
     applyPure τ .numEq [.num (.int a), .num (.int b)] = (.ok (.bool (a == b)), τ) := by
   simp only [applyPure, cmpNum, expectNumber]
-  show lift τ (cmpNum.go Num.eq (.int a) [.num (.int b)]) _ = _
+  show lift τ (cmpNum.go Num.eq (.int a) true [.num (.int b)]) _ = _
   simp only [cmpNum.go, expectNumber]
-  show lift τ (if Num.eq (.int a) (.int b) = true then cmpNum.go Num.eq (.int b) [] else _) _ = _
+  show lift τ (cmpNum.go Num.eq (.int b) (true && Num.eq (.int a) (.int b)) []) _ = _
   have : Num.eq (.int a) (.int b) = (a == b) := rfl
   rw [this]
   cases a == b <;> rfl
